@@ -41,7 +41,8 @@ var c17URLs = []string{
 	"https://sp.example/acs", "https://sp.example/acs?a=1&b=2", "http://sp.example/acs", "mailto:x@sp.example", "/relative/acs", "", "//sp.example/acs", "sp.example/acs",
 	"javascript:alert(1)", "JaVaScRiPt:alert(1)", " javascript:alert(1)", "java\tscript:alert(1)", "java\nscript:alert(1)", "\x01javascript:alert(1)", "javascript&colon;alert(1)", "javascript&#58;alert(1)", "javascript%3Aalert(1)",
 	"data:text/html,<script>alert(1)</script>", "DATA:text/html;base64,PHNjcmlwdD4=", "vbscript:msgbox(1)", "feed:javascript:alert(1)", "https://sp.example/\"onmouseover=\"alert(1)", "https://sp.example/'><script>", "https://sp.example/a b", "https://sp.example/ü",
-	"x:y", "a/b:c", "://", ":", "#frag", "?q=javascript:alert(1)",
+	"javascript://sp.example/%0Aalert(document.domain)", "JavaScript://sp.example:443/%0aalert(1)", "vbscript://sp.example/x", "data://sp.example/text/html,<script>alert(1)</script>", "javascript://%0aalert(1)", "javascript:///x%0aalert(1)",
+	"com.example.app://saml/acs", "x:y", "a/b:c", "://", ":", "#frag", "?q=javascript:alert(1)",
 }
 
 func genHostile(t *rapid.T, label string, maxPieces int) string {
@@ -74,6 +75,9 @@ func genC17Case(t *rapid.T) C17Case {
 		if rapid.IntRange(0, 3).Draw(t, "urlsuffix") == 0 {
 			c.URL += genHostile(t, "urltail", 3)
 		}
+	} else if rapid.IntRange(0, 3).Draw(t, "schemeurl") == 0 {
+		c.URL = rapid.SampledFrom([]string{"javascript", "JAVASCRIPT", "data", "vbscript", "https", "http", "app.custom"}).Draw(t, "urlscheme") + rapid.SampledFrom([]string{"://", ":", ":///", "://user@"}).Draw(t, "urlsep") +
+			rapid.SampledFrom([]string{"sp.example", "sp.example:443", "[::1]", ""}).Draw(t, "urlhost") + "/" + genHostile(t, "urltail", 3)
 	} else {
 		c.URL = "https://sp.example/" + genHostile(t, "urltail", 4)
 	}
